@@ -1132,6 +1132,19 @@ func callBuiltin(caller *frame, callpos token.Pos, fn *ssa.Builtin, args []value
 
 	case "ssa:deferstack":
 		return &caller.defers
+
+	case "SliceData": // unsafe.SliceData: remembered as the slice itself
+		return sliceData{args[0].([]value)}
+	case "StringData":
+		return sliceData{strBytes(args[0])}
+	case "String": // unsafe.String(ptr, len)
+		if sd, ok := args[0].(sliceData); ok {
+			return mkString(sd.s[:asInt64(args[1])])
+		}
+	case "Slice": // unsafe.Slice(ptr, len)
+		if sd, ok := args[0].(sliceData); ok {
+			return sd.s[:asInt64(args[1])]
+		}
 	}
 
 	panic("unknown built-in: " + fn.Name())
@@ -1562,3 +1575,6 @@ func fandbits[F floaty](x, y F) F {
 	}
 	return x
 }
+
+// sliceData stands for the pointer returned by unsafe.SliceData / unsafe.StringData.
+type sliceData struct{ s []value }
